@@ -756,7 +756,7 @@ class Interp:
             return self.with_instances(st, frame, 0)
         if any(isinstance(item.context_expr, ast.Call) for item in st.items):
             vals = [self.eval(item.context_expr, frame) for item in st.items]
-            if any(isinstance(v, GenContext) for v in vals):
+            if any(isinstance(v, GenContext) or (isinstance(v, Instance) and v._dunder('__enter__') is not None and v._dunder('__exit__') is not None) for v in vals):
                 return self.with_values(st, frame, vals, 0)
             return self.with_entered(st, frame, vals)
         for item in st.items:
@@ -812,6 +812,27 @@ class Interp:
         if i == len(vals):
             return self.exec_block(st.body, frame)
         item, v = st.items[i], vals[i]
+        if isinstance(v, Instance) and v._dunder('__enter__') is not None and v._dunder('__exit__') is not None:
+            # an instance of a repository class: __enter__, the rest, __exit__(type, value, tb) - a true result swallows the exception
+            entered = self.call_function(v._dunder('__enter__'), [v], {}, st)
+            if item.optional_vars is not None:
+                self.assign(item.optional_vars, entered, frame, st)
+            try:
+                self.with_values(st, frame, vals, i + 1)
+            except AbsRaise as r:
+                et = getattr(r.exc, 'cls', None) or ExcType(r.exc.tname)
+                t = self.truth(self.call_function(v._dunder('__exit__'), [v, et, r.exc, None], {}, st), st)
+                if t is True:
+                    self.event('caught', exc=r.exc.tname, handler=st, node=r.node)
+                    return
+                if t is not False:
+                    self.fail('__exit__ returns an undecided value', st)
+                raise
+            except (_Return, _Break, _Continue):
+                self.call_function(v._dunder('__exit__'), [v, None, None, None], {}, st)
+                raise
+            self.call_function(v._dunder('__exit__'), [v, None, None, None], {}, st)
+            return
         if not isinstance(v, GenContext):
             entered = self.models.enter_context(self, v, st)
             if getattr(v, 'suppresses', None):
